@@ -493,6 +493,11 @@ func (s *Server) cmdSearchArgs(
 	}
 
 	if lfs.hasbuffer {
+		if cmd == "nearby" {
+			// a buffered search area is no longer the circle that NEARBY measures from
+			err = errInvalidArgument("cannot buffer with nearby")
+			return
+		}
 		lfs.obj, err = buffer.Simple(lfs.obj, lfs.buffer)
 		if err != nil {
 			return
